@@ -184,8 +184,26 @@ def main(argv):
     return rc
 
 
+def step_coqchk(mod, ev, broken):
+    """thorough tier: the independent checker re-checks the compiled Props module and all it depends on"""
+    allowed = set(getattr(mod, "ALLOWED_AXIOMS", []))
+    res = {}
+    for props in mod.PROPS:
+        r = coqrun.coqchk(props)
+        res[props] = {"ok": r["ok"], "axioms": r["axioms"], "seconds": r["seconds"]}
+        if not r["ok"]:
+            broken.append(f"coqchk does not accept {props}: " + _first_error(r["log"]))
+        elif r["axioms"] and not set(a.split(":")[0].strip() for a in r["axioms"]) <= allowed:
+            broken.append(f"coqchk -o lists axioms for {props}: {r['axioms'][:5]}")
+    ev["coqchk"] = res
+    return res
+
+
 def decide(mod, pid, tier, seed, rng, known_open, ev, t0):
     proof_ok, model_ok, broken = step_proof(mod, ev)
+    if tier == "thorough" and proof_ok and os.environ.get("VERIF_NO_COQCHK") != "1":
+        step_coqchk(mod, ev, broken)
+        proof_ok = not broken
     log(f"[{pid}] A proof: {'ok' if proof_ok else 'BROKEN'} obligations={ev['obligations']} discharged={ev['discharged']}")
     for b in broken:
         log(f"[{pid}]   broken: {b}")
@@ -318,6 +336,7 @@ def write_evidence(mod, pid, tier, seed, ev, cases, obs, kinds, errkinds, nontri
         "trusted_base": GLOBAL_TRUSTED + list(getattr(mod, "TRUSTED_BASE", [])),
         "theorems": ev.get("theorems", []),
         "print_assumptions": ev.get("print_assumptions", {}),
+        "coqchk": ev.get("coqchk", "not run in the quick tier (thorough: coqchk -silent -o on the Props module)"),
         "broken": broken,
         "evaluations": len(cases),
         "distinct_nontrivial": nontrivial,
